@@ -75,7 +75,10 @@ def setSize (g : Grid) (size : Size) : M Grid := do
   let g := if g.scrollBottom < g.scrollTop then { g with scrollTop := 0 } else g
   let (g, _) := g.rowClampTop false
   let (g, _) ← g.rowClampBottom false
-  g.colClamp
+  let g ← g.colClamp
+  let r1 ← subM 4091 size.rows 1
+  let c1 ← subM 4092 size.cols 1
+  pure { g with savedPos := ⟨min g.savedPos.row r1, min g.savedPos.col c1⟩ }
 
 def setPos (g : Grid) (pos : Pos) : M Grid := do
   let pos := if g.originMode then { pos with row := satAddU16 pos.row g.scrollTop } else pos
@@ -273,7 +276,7 @@ def insertCells (g : Grid) (count : Nat) : M Grid := do
       pure c.isWideContinuation
     else pure false
   g.modifyCurrentRow (fun row => do
-    let row ← iterateM count (fun row => do
+    let row ← iterateM (min count size.cols) (fun row => do
       let row ← if wide then do
           let cs ← modifyM 422 row.cells pos.col (fun c => pure (c.setWideContinuation false))
           pure { row with cells := cs }
@@ -299,7 +302,7 @@ def eraseCells (g : Grid) (count : Nat) (attrs : Attrs) : M Grid :=
       (fun col r => r.erase col attrs) row)
 
 def insertLines (g : Grid) (count : Nat) : M Grid :=
-  iterateM count (fun g => do
+  iterateM (min count g.size.rows) (fun g => do
     let (_, rows) ← removeM 430 g.rows g.scrollBottom
     let rows ← insertM 431 rows g.pos.row g.newRow
     let rows ← modifyM 432 rows g.scrollBottom (fun r => pure (r.wrap false))
@@ -334,7 +337,7 @@ def scrollUp (g : Grid) (count : Nat) : M Grid := do
     else pure g) g
 
 def scrollDown (g : Grid) (count : Nat) : M Grid :=
-  iterateM count (fun g => do
+  iterateM (min count g.size.rows) (fun g => do
     let (_, rows) ← removeM 440 g.rows g.scrollBottom
     let rows ← insertM 441 rows g.scrollTop g.newRow
     let rows ← modifyM 442 rows g.scrollBottom (fun r => pure (r.wrap false))
@@ -400,10 +403,12 @@ def colWrap (g : Grid) (width : Nat) (wrap : Bool) : M Grid := do
     let prevPos := g.pos
     let g := { g with pos := { g.pos with col := 0 } }
     let (g, scrolled) ← g.rowIncScroll 1
-    let prevRow ← subM 451 prevPos.row scrolled
-    let newPos := g.pos
-    let rows ← modifyM 452 g.rows prevRow (fun r => pure (r.wrap (wrap && prevRow + 1 == newPos.row)))
-    pure { g with rows := rows }
+    if scrolled > 0 && g.scrollTop == g.scrollBottom then pure g
+    else do
+      let prevRow ← subM 451 prevPos.row scrolled
+      let newPos := g.pos
+      let rows ← modifyM 452 g.rows prevRow (fun r => pure (r.wrap (wrap && prevRow + 1 == newPos.row)))
+      pure { g with rows := rows }
   else pure g
 
 end Grid
